@@ -55,6 +55,56 @@ Fixpoint utf8_encode (s : list Z) : res (list Z) :=
   | c :: r => do a <- utf8_cp c; do b <- utf8_encode r; Ok (a ++ b)
   end.
 
+(* bytes.decode() (UTF-8, strict): the well-formed byte sequences of the Unicode standard,
+   table 3-7 (no overlong forms, no surrogates, nothing above U+10FFFF) *)
+Definition cont (b : Z) : bool := (128 <=? b) && (b <=? 191).
+
+Fixpoint utf8_decode (s : list Z) : option (list Z) :=
+  match s with
+  | [] => Some []
+  | b0 :: r =>
+      if (0 <=? b0) && (b0 <? 128) then
+        match utf8_decode r with Some u => Some (b0 :: u) | None => None end
+      else if (194 <=? b0) && (b0 <=? 223) then
+        match r with
+        | b1 :: r1 =>
+            if cont b1 then
+              match utf8_decode r1 with
+              | Some u => Some (((b0 - 192) * 64 + (b1 - 128)) :: u)
+              | None => None
+              end
+            else None
+        | _ => None
+        end
+      else if (224 <=? b0) && (b0 <=? 239) then
+        match r with
+        | b1 :: b2 :: r2 =>
+            if cont b1 && cont b2
+               && (if b0 =? 224 then 160 <=? b1 else true)
+               && (if b0 =? 237 then b1 <=? 159 else true) then
+              match utf8_decode r2 with
+              | Some u => Some (((b0 - 224) * 4096 + (b1 - 128) * 64 + (b2 - 128)) :: u)
+              | None => None
+              end
+            else None
+        | _ => None
+        end
+      else if (240 <=? b0) && (b0 <=? 244) then
+        match r with
+        | b1 :: b2 :: b3 :: r3 =>
+            if cont b1 && cont b2 && cont b3
+               && (if b0 =? 240 then 144 <=? b1 else true)
+               && (if b0 =? 244 then b1 <=? 143 else true) then
+              match utf8_decode r3 with
+              | Some u => Some (((b0 - 240) * 262144 + (b1 - 128) * 4096 + (b2 - 128) * 64 + (b3 - 128)) :: u)
+              | None => None
+              end
+            else None
+        | _ => None
+        end
+      else None
+  end.
+
 (* ---------- Token.unescape_to_bytes (tokenizer.py:135) ---------- *)
 Fixpoint ub_loop (v : list Z) (acc : list Z) : res (list Z) :=
   match v with
@@ -474,6 +524,24 @@ Definition escapify (s : list Z) : list Z := flat_map esc_octet s.
 (* "\"" + _escapify(s) + "\"" *)
 Definition quote (s : list Z) : list Z := 34 :: escapify s ++ [34].
 
+(* dns.rdata._escapify_unicode (rdata.py:205), on code points *)
+Definition esc_cp (c : Z) : list Z :=
+  if q_escaped c then [92; c]
+  else if c >=? 32 then [c]
+  else [92; 48 + c / 100; 48 + (c / 10) mod 10; 48 + c mod 10].
+
+Definition escapify_unicode (u : list Z) : list Z := flat_map esc_cp u.
+
+(* one TXT-like string under a style (txtbase.py to_styled_text): with txt_is_utf8 the octets are
+   decoded as UTF-8 and printed as characters when that succeeds, else escaped octet-wise *)
+Definition txt_body (utf8 : bool) (s : list Z) : list Z :=
+  if utf8 then
+    match utf8_decode s with
+    | Some u => escapify_unicode u
+    | None => escapify s
+    end
+  else escapify s.
+
 (* ---------- binascii.hexlify / unhexlify ---------- *)
 Definition hexdigit (v : Z) : Z := if v <? 10 then 48 + v else 87 + v.
 Definition hexlify (d : list Z) : list Z := flat_map (fun b => [hexdigit (b / 16); hexdigit (b mod 16)]) d.
@@ -631,6 +699,17 @@ Fixpoint txt_to_text (strings : list (list Z)) : list Z :=
   | [s] => quote s
   | s :: r => quote s ++ 32 :: txt_to_text r
   end.
+
+(* the same with RdataStyle.txt_is_utf8 *)
+Definition quote_body (b : list Z) : list Z := 34 :: b ++ [34].
+Fixpoint txt_join (bodies : list (list Z)) : list Z :=
+  match bodies with
+  | [] => []
+  | [b] => quote_body b
+  | b :: r => quote_body b ++ 32 :: txt_join r
+  end.
+Definition txt_to_text_style (utf8 : bool) (strings : list (list Z)) : list Z :=
+  txt_join (map (txt_body utf8) strings).
 
 Fixpoint txt_strings (toks : list token) : res (list (list Z)) :=
   match toks with
@@ -820,6 +899,17 @@ Definition run (c : obs) : obs :=
   | L [I 7; t] =>
       match text_of_obs t with
       | Some s => obs_of_res (fun ss => L (map B ss)) (rdata_from_text_txt s)
+      | None => E eBadCase
+      end
+  | L [I 11; t] =>
+      match text_of_obs t with
+      | Some u => obs_of_text (escapify_unicode u)
+      | None => E eBadCase
+      end
+  | L [I 12; B s] => match utf8_decode s with Some u => obs_of_text u | None => N end
+  | L [I 13; L ss; I utf8] =>
+      match strings_of_obs ss with
+      | Some strings => obs_of_text (txt_to_text_style (utf8 =? 1) strings)
       | None => E eBadCase
       end
   | L [I 8; t; I base] =>
